@@ -649,17 +649,33 @@ func (c *Ctx) callSiteVisitedGuard(pk *pkgT, cf *cfgx.Func, body *ast.BlockStmt,
 	if !cf.MustAt(call, gen, nil, nil) || gm == nil {
 		return false
 	}
-	inserted := false
-	cf.Before(call, func(nd ast.Node) {
-		if as, ok := nd.(*ast.AssignStmt); ok && len(as.Lhs) == 1 {
-			if ix, ok := ast.Unparen(as.Lhs[0]).(*ast.IndexExpr); ok {
-				if cfgx.SameExpr(info, ix.X, gm) && cfgx.SameExpr(info, ix.Index, gk) {
-					inserted = true
-				}
-			}
+	return markHeldAt(info, cf, call, gm, gk)
+}
+
+// markHeldAt: on every path to node at, M[k] was inserted and not deleted again
+// (a deferred delete runs after the call and does not count).
+func markHeldAt(info *types.Info, cf *cfgx.Func, at ast.Node, gm, gk ast.Expr) bool {
+	genStmt := func(nd ast.Node) bool {
+		as, ok := nd.(*ast.AssignStmt)
+		if !ok || len(as.Lhs) != 1 {
+			return false
 		}
-	})
-	return inserted
+		ix, ok := ast.Unparen(as.Lhs[0]).(*ast.IndexExpr)
+		return ok && cfgx.SameExpr(info, ix.X, gm) && cfgx.SameExpr(info, ix.Index, gk)
+	}
+	kill := func(nd ast.Node) bool {
+		es, ok := nd.(*ast.ExprStmt)
+		if !ok {
+			return false
+		}
+		call, ok := es.X.(*ast.CallExpr)
+		if !ok || len(call.Args) != 2 {
+			return false
+		}
+		id, ok := call.Fun.(*ast.Ident)
+		return ok && id.Name == "delete" && cfgx.SameExpr(info, call.Args[0], gm)
+	}
+	return cf.MustAt(at, nil, genStmt, kill)
 }
 
 // entryGuarded: f starts with `if _, ok := M[p]; ok { return }` and `M[p] = ...`
@@ -714,15 +730,7 @@ func (c *Ctx) entryGuarded(f *ssa.Function, inSCC map[*ssa.Function]bool) bool {
 		if !cf.MustAt(call, gen, nil, nil) || gm == nil {
 			return false
 		}
-		inserted := false
-		cf.Before(call, func(nd ast.Node) {
-			if as, ok := nd.(*ast.AssignStmt); ok && len(as.Lhs) == 1 {
-				if ix, ok := ast.Unparen(as.Lhs[0]).(*ast.IndexExpr); ok && cfgx.SameExpr(info, ix.X, gm) && cfgx.SameExpr(info, ix.Index, gk) {
-					inserted = true
-				}
-			}
-		})
-		if !inserted {
+		if !markHeldAt(info, cf, call, gm, gk) {
 			return false
 		}
 	}
@@ -1090,6 +1098,15 @@ func (c *Ctx) checkIncludeWorklist(sc interface {
 		}
 		if cf.MustAt(as, gen, nil, nil) && gm != nil {
 			sc.Holds("include-worklist:Push", c.P.Pos(as.Pos()), "the scanner stack grows only for a file that is not already on it ("+types.ExprString(gm)+"): include depth is bounded by the number of distinct files")
+			// the key identifies the file: an accessor chain, no transformation that could map two files to one key
+			_, k, _ := mapLookupOfAny(info, cf, gm)
+			if k != nil {
+				if bad := transformedKey(info, cf.Resolve(k)); bad != "" {
+					sc.Violation("include-worklist:key", c.P.Pos(k.Pos()), "the on-stack set of files is keyed by "+bad+" instead of the file name itself: two different files can share a key and a legitimate include is refused as recursion (or a real cycle is missed)")
+				} else {
+					sc.Holds("include-worklist:key", c.P.Pos(k.Pos()), "keyed by the file name itself ("+types.ExprString(cf.Resolve(k))+")")
+				}
+			}
 		} else {
 			sc.Violation("include-worklist:Push", c.P.Pos(as.Pos()), "a scanner is pushed without testing that its file is not already on the stack: an include cycle recurses forever")
 		}
@@ -1097,5 +1114,46 @@ func (c *Ctx) checkIncludeWorklist(sc interface {
 	})
 	if !found {
 		sc.Undecided("include-worklist:Push", c.P.Pos(fd.Pos()), "no append to Stack.stack in Push")
+	}
+}
+
+// mapLookupOfAny finds some `_, ok := M[k]` on map expression m in the body.
+func mapLookupOfAny(info *types.Info, cf *cfgx.Func, m ast.Expr) (ast.Expr, ast.Expr, bool) {
+	var rm, rk ast.Expr
+	ast.Inspect(cf.Body, func(n ast.Node) bool {
+		as, ok := n.(*ast.AssignStmt)
+		if !ok || len(as.Lhs) != 2 || len(as.Rhs) != 1 {
+			return true
+		}
+		if ix, ok := ast.Unparen(as.Rhs[0]).(*ast.IndexExpr); ok && cfgx.SameExpr(info, ix.X, m) {
+			rm, rk = ix.X, ix.Index
+		}
+		return true
+	})
+	return rm, rk, rk != nil
+}
+
+// transformedKey returns a description when e is not a pure accessor chain
+// (selectors and zero-argument method calls only).
+func transformedKey(info *types.Info, e ast.Expr) string {
+	for {
+		e = ast.Unparen(e)
+		switch x := e.(type) {
+		case *ast.Ident:
+			return ""
+		case *ast.SelectorExpr:
+			e = x.X
+		case *ast.CallExpr:
+			if len(x.Args) != 0 {
+				return types.ExprString(x)
+			}
+			sel, ok := x.Fun.(*ast.SelectorExpr)
+			if !ok {
+				return types.ExprString(x)
+			}
+			e = sel.X
+		default:
+			return types.ExprString(e)
+		}
 	}
 }
